@@ -496,6 +496,8 @@ class StmtMixin(CallMixin):
                     continue
                 listed = [Val.a(t) for (nm, t) in fr["fields"] if nm == target[1] and t is not None]
             elif kindt == "dict":
+                if any(t is None for t in fr["dicts"]):
+                    continue
                 listed = [Val.a(t) for t in fr["dicts"]]
             else:
                 listed = [Val.a(t) for t in fr["conts"]]
@@ -541,12 +543,19 @@ class StmtMixin(CallMixin):
         # havoc
         p.bump_alloc()
         conts = [s._resolve(p, c) for c in inv.conts]
-        dicts = [s._resolve(p, c) for c in inv.dicts]
+        dicts = [(None if c is None else s._resolve(p, c)) for c in inv.dicts]
         fields = [(nm, (None if c is None else s._resolve(p, c))) for nm, c in inv.fields]
         for c in conts:
             p.havoc_seq(c)
         for d in dicts:
-            p.havoc_dict(d)
+            if d is None:
+                # any dictionary may change: havoc the dict part of the heap wholesale (the invariant restates what is kept)
+                from .values import AB, AVV
+                p.h.dk = z3.Array(f"hv_dk!{next(_hv)}", z3.IntSort(), AB)
+                p.h.dv = z3.Array(f"hv_dv!{next(_hv)}", z3.IntSort(), AVV)
+                p.h.dn = z3.Array(f"hv_dn!{next(_hv)}", z3.IntSort(), z3.IntSort())
+            else:
+                p.havoc_dict(d)
         for nm, o in fields:
             if o is None:
                 # the field may change on ANY object: havoc the whole field array
